@@ -19,6 +19,10 @@ Monitors (all observe real executions of the tree under test):
  * batches written by sample(..., batch_size=b) are full, consecutive and in order; burnthin() is a slice,
  * stateless interface: returned chain == [x0, states returned by the transitions][Nb:], callback count /
    index / state, x0 untouched, a second call and a call without callback repeat the chain,
+ * refused / aborted requests (malformed N, second warm-up, wrong-type checkpoint, unknown state key, double
+   initialize, sample without target, a user callback that raises once) interleaved with valid calls in both
+   interfaces and both Gibbs drivers: the sampler must be attribute-for-attribute unchanged and the continued
+   run must equal its twin without those requests on the same stream,
  * reinitialize() versus a freshly constructed + initialised sampler (attribute by attribute and by the
    chain it then produces).
 Oracle: chain bookkeeping in vlib/refs/c14_chain.py (no cuqi import).
@@ -46,10 +50,12 @@ ASSUMPTIONS = [
 REQUIRED_COUNTERS = {
     "quick": {"split_chain_compared": 150, "checkpoint_continuation_compared": 1200, "callback_state_compared": 5000,
               "step_attr_diff_checked": 10000, "reinit_attr_compared": 1500, "stateless_chain_compared": 70,
-              "gibbs_split_compared": 150, "saved_state_unaltered_checked": 1200, "gibbs_burnthin_compared": 1500},
+              "gibbs_split_compared": 150, "saved_state_unaltered_checked": 1200, "gibbs_burnthin_compared": 1500,
+              "refused_call_aftermath_compared": 2000, "refusal_twin_chain_compared": 300},
     "thorough": {"split_chain_compared": 1200, "checkpoint_continuation_compared": 14000, "callback_state_compared": 50000,
                  "step_attr_diff_checked": 150000, "reinit_attr_compared": 15000, "stateless_chain_compared": 600,
-                 "gibbs_split_compared": 1300, "saved_state_unaltered_checked": 14000, "gibbs_burnthin_compared": 12000},
+                 "gibbs_split_compared": 1300, "saved_state_unaltered_checked": 14000, "gibbs_burnthin_compared": 12000,
+                 "refused_call_aftermath_compared": 15000, "refusal_twin_chain_compared": 2500},
 }
 BUDGET_S = {"quick": 240.0, "thorough": 2400.0}
 
@@ -415,6 +421,39 @@ def _stateful_chain(s):
         return np.zeros((0, 0))
     return R.as_chain(s.get_samples().samples)
 
+# --------------------------------------------------------------------------- refused / aborted requests
+
+class _Boom(Exception):
+    """Raised once by the harness callback: a user callback that fails."""
+
+
+def _after_refusal(ctx, cfg, label, snap, call):
+    """Make a request that should be refused (any exception counts) with the random stream put back
+    afterwards; the sampler must be exactly as before. Returns True when the twin comparison (same run
+    without the request) stays meaningful."""
+    st = np.random.get_state()
+    before = snap()
+    kind_, val = core.outcome(call, refusal=(Exception,))
+    np.random.set_state(st)
+    after = snap()
+    bad = R.changed_keys(before, after)
+    if kind_ == "value":
+        ctx.count("refusal_candidate_accepted")
+        return not bad
+    ctx.refused("aftermath:" + label, val)
+    ctx.count("refused_call_aftermath_compared")
+    if bad:
+        ctx.violation("refused_call_changed_sampler", {**cfg, "request": label, "attributes": ",".join(bad)},
+                      detail=f"the refused request {label} ({type(val).__name__}: {core.short(str(val), 120)}) left the sampler changed in {bad}: "
+                             "the recorded chain / state are no longer those of the run without that request")
+        return False
+    return True
+
+
+def _snap_obj(obj, ignore=()):
+    return lambda: {k: v for k, v in R.snapshot(vars(obj)).items() if k not in ignore}
+
+
 # --------------------------------------------------------------------------- stateful interface
 
 def run_stateful(case, ctx):
@@ -629,6 +668,85 @@ def _run_stateful_inner(case, ctx, cfg, make, cls, x0, x0_keep, watch, tmp, N, M
         if distinct >= 2:
             ctx.nontrivial(f"ckpt:{case['sampler']}:{'first' if p == 0 else 'later'}")
 
+    # ---------------- refused / aborted requests between sample(N) and the continuation: twin of U
+    recB = Recorder()
+    B = make(recB)
+    _prepare(B, Nb, lazy, S_init, S_warm, tf, pre)
+    _seed(S_run)
+    B.sample(N)
+    snapB = _snap_obj(B)
+    other_cls = "MH" if cls.__name__ != "MH" else "ULA"
+    wrong = os.path.join(tmp, "wrong_type.pickle")
+    with open(wrong, "wb") as fh:
+        pickle.dump({"metadata": {"sampler_type": other_cls}, "state": {"current_point": np.full(np.shape(B.current_point), 7.0)}}, fh)
+    cur = B.get_state()
+    requests = [
+        ("sample(2.5)", lambda: B.sample(2.5)),
+        ("sample('3')", lambda: B.sample("3")),
+        ("warmup(1.5)", lambda: B.warmup(1.5)),
+        ("load_checkpoint(other sampler type)", lambda: B.load_checkpoint(wrong)),
+        ("load_checkpoint(missing file)", lambda: B.load_checkpoint(os.path.join(tmp, "does_not_exist.pickle"))),
+        ("set_state(other sampler type)", lambda: B.set_state({"metadata": {"sampler_type": other_cls}, "state": {"current_point": np.full(np.shape(B.current_point), 7.0)}})),
+        ("set_state(unknown key first)", lambda: B.set_state({"metadata": cur["metadata"], "state": {"no_such_key": 1, **cur["state"]}})),
+        ("set_history(unknown key first)", lambda: B.set_history({"metadata": cur["metadata"], "history": {"no_such_key": 1}})),
+        ("initialize() twice", lambda: B.initialize()),
+    ]
+    twin_ok = True
+    for label, call in requests:
+        twin_ok = _after_refusal(ctx, cfg, label, snapB, call) and twin_ok
+    # a user callback that raises once aborts sample(): the transitions made so far are recorded, nothing else
+    j = min(M - 1, case["rep"] % 3)
+    calls = {"n": 0}
+    def boom(sample, index):
+        recB(sample, index)
+        calls["n"] += 1
+        if calls["n"] == j + 1:
+            raise _Boom()
+    B.callback = boom
+    kind_, val = core.outcome(B.sample, M + 1, refusal=(_Boom,))
+    B.callback = recB
+    ctx.count("aborted_by_callback_checked")
+    if kind_ == "value":
+        ctx.violation("callback_exception_swallowed", cfg, detail="an exception raised by the user callback did not leave sample()")
+        twin_ok = False
+    elif kind_ == "crashed":
+        raise val
+    elif len(B._samples) != off + N + j + 1:
+        twin_ok = False
+        ctx.violation("aborted_sample_record", cfg,
+                      detail=f"sample({M + 1}) aborted by the callback of its transition {j}: {j + 1} transitions were made, the chain grew from {off + N} to {len(B._samples)}")
+    if twin_ok:
+        B.sample(M - (j + 1))
+        chainB = _stateful_chain(B)
+        ctx.count("refusal_twin_chain_compared")
+        if not _cmp_chain(ctx, chainB, chainU_all):
+            ctx.violation("run_with_refused_requests_differs", {**cfg, "warmup": bool(Nb)},
+                          detail=f"sample({N}); refused requests; sample aborted by its callback after {j + 1} transitions; sample({M - j - 1}) "
+                                 f"differs from sample({N + M}) on the same stream: " + _first_diff(chainB, chainU_all))
+        elif recB.indices != list(range(off + total)):
+            ctx.violation("callback_index", {**cfg, "phase": "after_refused_requests"}, detail=f"indices {recB.indices}")
+    # sample before the required set-up (no target) is refused; once the target is set the run is the usual one
+    T0 = make(None)
+    _seed(S_fresh); T0.sample(min(total, 3))
+    try:
+        B0 = type(T0)(initial_point=T0.initial_point if x0 is None else x0, **{k: getattr(T0, k) for k in ()})
+    except Exception:  # noqa - constructor insists on a target: nothing to interleave
+        B0 = None
+    if B0 is not None and case["variant"] == 0 and cls.__name__ in ("LinearRTO", "UGLA", "Conjugate", "ConjugateApprox", "Direct", "RegularizedLinearRTO"):
+        # (only samplers whose configuration here is the default apart from target and initial point)
+        if cls.__name__ == "RegularizedLinearRTO":
+            B0.maxit = T0.maxit
+        if _after_refusal(ctx, cfg, "sample() without target", _snap_obj(B0), lambda: B0.sample(2)):
+            B0.target = T0.target
+            if x0 is None:
+                B0.initial_point = None
+            _seed(S_fresh); B0.sample(min(total, 3))
+            ctx.count("refusal_twin_chain_compared")
+            if not _cmp_chain(ctx, _stateful_chain(B0), _stateful_chain(T0)):
+                ctx.violation("run_with_refused_requests_differs", {**cfg, "request": "sample() without target"},
+                              detail="sampler built without target, sample() refused, target set, sample(): differs from the sampler built with the target: "
+                                     + _first_diff(_stateful_chain(B0), _stateful_chain(T0)))
+
     # ---------------- reinitialize() versus a freshly constructed and initialised sampler
     cb_shared = Recorder()
     U.callback = cb_shared
@@ -768,6 +886,25 @@ def run_stateless(case, ctx):
         ctx.count("initial_point_unmutated_checked")
         if not np.array_equal(x0, x0_keep):
             ctx.violation("initial_point_mutated", cfg, detail=f"x0 array changed from {x0_keep.tolist()} to {x0.tolist()}")
+    # ---- refused / aborted requests leave a stateless sampler exactly as it was
+    diag = ("iteration_list", "num_tree_node_list", "epsilon_list", "epsilon_bar_list", "_num_tree_node")  # per-call diagnostics
+    if name == "UGLA":
+        diag += ("_L1", "_L2", "_L2mu", "_b_tild", "_m", "_shift")  # rebuilt from x0 at the start of every call
+    if case["adapt"]:
+        diag += ("scale",)                     # sample_adapt documents that the adapted scale stays on the object
+    snapS = _snap_obj(s, ignore=diag)
+    def _raising(sample, index):
+        raise _Boom()
+    def _aborted():
+        s.callback = _raising
+        try:
+            return getattr(s, method)(max(N, 2), Nb)
+        finally:
+            s.callback = rec
+    for label, call in (("sample(2.5)", lambda: getattr(s, method)(2.5, Nb)), ("sample(-1)", lambda: getattr(s, method)(-1, 0)),
+                        ("sample(0)", lambda: getattr(s, method)(0, 0)), ("sample(N, Nb=1.5)", lambda: getattr(s, method)(N, 1.5)),
+                        ("sample('3')", lambda: getattr(s, method)("3")), ("callback raises", _aborted)):
+        _after_refusal(ctx, cfg, label, snapS, call)
     # ---- stateless: a second call on the same object starts again from x0 and, without adaptation, repeats the chain
     if method == "sample":
         _seed(S_run)
@@ -900,6 +1037,30 @@ def run_hybrid(case, ctx):
             raise val
         gU, chU, _ = val
         gS, chS, lens = go([N, M])
+        # twin with refused requests between sample(N) and sample(M)
+        _seed(S_c)
+        gB = build()
+        if Nb:
+            _seed(S_w); gB.warmup(Nb)
+        _seed(S_run)
+        gB.sample(N)
+        def snapG():
+            d = R.snapshot(vars(gB))
+            for pn, sm in gB.samplers.items():
+                d.update({f"{pn}.{k}": v for k, v in R.snapshot(vars(sm)).items()})
+            return d
+        twin_ok = True
+        for label, call in (("sample(2.5)", lambda: gB.sample(2.5)), ("sample('3')", lambda: gB.sample("3")),
+                            ("warmup(1.5)", lambda: gB.warmup(1.5)), ("warmup(2, tune_freq='a')", lambda: gB.warmup(2, tune_freq="a"))):
+            twin_ok = _after_refusal(ctx, cfg, label, snapG, call) and twin_ok
+        if twin_ok:
+            gB.sample(M)
+            chB = {p: R.as_chain(v.samples) for p, v in gB.get_samples().items()}
+            for p in sorted(chB):
+                ctx.count("refusal_twin_chain_compared")
+                if not _cmp_chain(ctx, chB[p], chU[p]):
+                    ctx.violation("run_with_refused_requests_differs", {**cfg, "variable": p},
+                                  detail=f"HybridGibbs sample({N}); refused requests; sample({M}) differs from sample({N + M}) in '{p}': " + _first_diff(chB[p], chU[p]))
     want = Nb + N + M
     names = sorted(chU)
     for p in names:
@@ -986,6 +1147,26 @@ def run_legacy_gibbs(case, ctx):
     with contracts.ensure(cuqi.sampler.Gibbs, "step", post, log):
         gU, outU, retU = go([N + M])
         gS, outS, _ = go([N, M])
+        # twin with refused requests (second warm-up, malformed N) between sample(N, Nb) and sample(M)
+        gB = cuqi.sampler.Gibbs(joint, _legacy_strategy(strategy))
+        _seed(S_run)
+        gB.sample(N, Nb)
+        snapG = _snap_obj(gB, ignore=("samples_warmup",))   # the warm-up record is rebuilt by every call (not part of the chain)
+        reqs = [("sample(2.5)", lambda: gB.sample(2.5)), ("sample(-1)", lambda: gB.sample(-1)), ("sample('3')", lambda: gB.sample("3"))]
+        if Nb:
+            reqs.insert(0, ("second warm-up sample(3, Nb=2)", lambda: gB.sample(3, 2)))
+            reqs.append(("second warm-up sample(1, Nb=1)", lambda: gB.sample(1, 1)))
+        twin_ok = True
+        for label, call in reqs:
+            twin_ok = _after_refusal(ctx, cfg, label, snapG, call) and twin_ok
+        if twin_ok:
+            rB = gB.sample(M)
+            for p in sorted(rB):
+                ctx.count("refusal_twin_chain_compared")
+                cB = R.as_chain(rB[p].samples)
+                if not _cmp_chain(ctx, cB, outU[0][p]):
+                    ctx.violation("run_with_refused_requests_differs", {**cfg, "variable": p},
+                                  detail=f"Gibbs sample({N},{Nb}); refused requests; sample({M}) differs from sample({N + M},{Nb}) in '{p}': " + _first_diff(cB, outU[0][p]))
     names = sorted(outU[0])
     for p in names:
         ctx.count("chain_length_checked")
